@@ -269,3 +269,48 @@ func factText(facts map[string]bool) string {
 	}
 	return strings.Join(ks, "; ")
 }
+
+// ---------------------------------------------------------------------------------------
+// N15g: only text the grammar matched as a register is classified as one
+// ---------------------------------------------------------------------------------------
+
+func ruleN15g(c *Ctx) {
+	c.doc("N15g", "getRegisterType classifies a word by spelling (it upper-cases it and falls back on prefixes: K*, MM*, XMM*, BND* …), which is right only for text the operand grammar has already matched as a register: it is called from the generated grammar actions, or on the Register field of a parsed operand, and nowhere else — called on raw operand text it turns labels such as kmsg, mmio_base or a lower-case ax into registers")
+	target := c.L.SSAFunc("pkg/ng_operand", "getRegisterType")
+	if target == nil {
+		c.anchorMissing("N15g", "pkg/ng_operand.getRegisterType")
+		return
+	}
+	n := 0
+	for _, g := range c.L.RepoFuncs() {
+		if pkgRel(g) == "test" {
+			continue
+		}
+		per := 0
+		for _, b := range g.Blocks {
+			for _, in := range b.Instrs {
+				for _, op := range in.Operands(nil) {
+					if op == nil || *op != ssa.Value(target) {
+						continue
+					}
+					n++
+					per++
+					key := fmt.Sprintf("%s|use of getRegisterType#%d", shortName(g), per)
+					pos := c.L.Pos(instrPos(in))
+					call, isCall := in.(*ssa.Call)
+					switch {
+					case !isCall || call.Call.StaticCallee() != target:
+						c.fail("N15g", key, pos, "getRegisterType is used as a value: its callers can no longer be enumerated")
+					case c.isGeneratedFn(g):
+						c.ok("N15g", key, pos, "called from a grammar action on the text the Register rule matched")
+					case isFieldLoad(call.Call.Args[0], "Register"):
+						c.ok("N15g", key, pos, "called on the Register field of a parsed operand")
+					default:
+						c.fail("N15g", key, pos, shortName(g)+" classifies text that did not come out of the grammar's Register rule with getRegisterType: its prefix fallbacks (K*, MM*, XMM*, BND*) and its upper-casing turn ordinary label names into registers")
+					}
+				}
+			}
+		}
+	}
+	c.check(n >= 1, "N15g", "uses of getRegisterType found", "", fmt.Sprintf("%d", n))
+}
